@@ -4,15 +4,14 @@
 //! (model-independent renderings of the property statements) run on the real
 //! code's observations and report failures with a signature.
 //!
-//!   verif-harness run  <component> --seed S --cases N --tier quick|thorough --out DIR
-//!   verif-harness exec <component> <ops-file> --out DIR
+//! One binary per component (src/bin/<component>.rs):
+//!   <component> run  --seed S --cases N --tier quick|thorough --out DIR
+//!   <component> exec <ops-file> --out DIR
 //!
 //! Writes DIR/<component>.ops (run only), .impl, .mon.jsonl, .stats.json.
 
-mod rng;
-mod util;
-
-mod comp_codec;
+pub mod rng;
+pub mod util;
 
 use std::collections::{BTreeMap, BTreeSet};
 use std::io::Write;
@@ -79,13 +78,6 @@ pub trait Component {
     fn rule(&self) -> &'static str;
 }
 
-fn make(name: &str) -> Option<Box<dyn Component>> {
-    match name {
-        "codec" => Some(Box::new(comp_codec::Codec::default())),
-        _ => None,
-    }
-}
-
 fn parse_flag(args: &[String], flag: &str) -> Option<String> {
     args.iter()
         .position(|a| a == flag)
@@ -101,20 +93,16 @@ fn fnv(s: &str) -> u64 {
     h
 }
 
-fn main() {
+/// Entry point shared by every component binary (`src/bin/<component>.rs`).
+pub fn run_main(comp_name: &str, mut comp: Box<dyn Component>) {
     // Keep panics inside catch_unwind quiet; they are reported as observations.
     std::panic::set_hook(Box::new(|_| {}));
     let args: Vec<String> = std::env::args().collect();
-    if args.len() < 3 {
-        eprintln!("usage: verif-harness run|exec <component> ...");
+    if args.len() < 2 {
+        eprintln!("usage: {comp_name} run --seed S --cases N --tier T --out DIR | exec <ops-file> --out DIR");
         std::process::exit(2);
     }
     let mode = args[1].as_str();
-    let comp_name = args[2].as_str();
-    let Some(mut comp) = make(comp_name) else {
-        eprintln!("unknown component {comp_name}");
-        std::process::exit(2);
-    };
     let out_dir = parse_flag(&args, "--out").unwrap_or_else(|| ".".into());
     std::fs::create_dir_all(&out_dir).unwrap();
 
@@ -148,7 +136,7 @@ fn main() {
             cases
         }
         "exec" => {
-            let path = &args[3];
+            let path = &args[2];
             let text = std::fs::read_to_string(path).expect("read ops file");
             let mut cases: Vec<Vec<String>> = Vec::new();
             for line in text.lines() {
